@@ -24,18 +24,30 @@ type (
 		Keys []Expr // string-valued expressions (usually StrLit)
 		Vals []Expr
 	}
-	Unary   struct{ Op string; X Expr }       // "-" "!"
-	Binary  struct{ Op string; L, R Expr }    // + - * % == != < <= > >=
-	Logic   struct{ Op string; L, R Expr }    // && ||
-	Ternary struct{ C, T, F Expr }
+	Unary struct {
+		Op string
+		X  Expr
+	} // "-" "!"
+	Binary struct {
+		Op   string
+		L, R Expr
+	} // + - * % == != < <= > >=
+	Logic struct {
+		Op   string
+		L, R Expr
+	} // && ||
+	Ternary  struct{ C, T, F Expr }
 	Coalesce struct{ L, R Expr }
-	Index   struct{ X, I Expr }
-	SliceE  struct{ X, Lo, Hi, Cap Expr } // Lo/Hi/Cap may be nil
-	Member  struct{ X Expr; Name string }
-	Len     struct{ X Expr }
-	In      struct{ X, L Expr }
-	Paren   struct{ X Expr }
-	AddrOf  struct{ X Expr } // &x, &a[i]
+	Index    struct{ X, I Expr }
+	SliceE   struct{ X, Lo, Hi, Cap Expr } // Lo/Hi/Cap may be nil
+	Member   struct {
+		X    Expr
+		Name string
+	}
+	Len    struct{ X Expr }
+	In     struct{ X, L Expr }
+	Paren  struct{ X Expr }
+	AddrOf struct{ X Expr } // &x, &a[i]
 	// Call: named call when Callee == nil (callee looked up by Fn), anonymous otherwise.
 	Call struct {
 		Fn     string
@@ -156,23 +168,23 @@ type (
 	}
 )
 
-func (*ExprStmt) isStmt() {}
-func (*VarStmt) isStmt()  {}
-func (*Assign) isStmt()   {}
-func (*If) isStmt()       {}
-func (*Loop) isStmt()     {}
-func (*CFor) isStmt()     {}
-func (*ForIn) isStmt()    {}
-func (*Switch) isStmt()   {}
-func (*Break) isStmt()    {}
-func (*Continue) isStmt() {}
-func (*Return) isStmt()   {}
-func (*Throw) isStmt()    {}
-func (*Try) isStmt()      {}
-func (*Defer) isStmt()    {}
+func (*ExprStmt) isStmt()      {}
+func (*VarStmt) isStmt()       {}
+func (*Assign) isStmt()        {}
+func (*If) isStmt()            {}
+func (*Loop) isStmt()          {}
+func (*CFor) isStmt()          {}
+func (*ForIn) isStmt()         {}
+func (*Switch) isStmt()        {}
+func (*Break) isStmt()         {}
+func (*Continue) isStmt()      {}
+func (*Return) isStmt()        {}
+func (*Throw) isStmt()         {}
+func (*Try) isStmt()           {}
+func (*Defer) isStmt()         {}
 func (*MapItemAssign) isStmt() {}
-func (*Go) isStmt()       {}
-func (*Module) isStmt()   {}
+func (*Go) isStmt()            {}
+func (*Module) isStmt()        {}
 
 // -------------------------------------------------------------------- printer
 
